@@ -509,3 +509,12 @@ V('H5c_e8m0_log2_membership', ['C11'], 'bitstore_helpers.py', _E8_OLD,
   "    try:\n        exponent = math.log2(f)\n        if not exponent.is_integer() or not -127 <= exponent <= 127:\n            raise ValueError\n        i = int(exponent) + 127\n    except (ValueError, OverflowError):\n        raise ValueError(", ['H5c'])
 S('H5c_e8m0_log2_with_exact_check', ['C11'], 'bitstore_helpers.py', _E8_OLD,
   "    try:\n        if f <= 0 or math.isinf(f):\n            raise ValueError\n        k = round(math.log2(f))\n        if not -127 <= k <= 127 or 2.0 ** k != f:\n            raise ValueError\n        i = k + 127\n    except ValueError:\n        raise ValueError(")
+
+# ---- MIRROR
+V('MIRROR_delitem_hand_slice', ['C12'], 'bitstore.py', "            new_slice = offset_slice_indices_lsb0(key, len(self))\n            self._bitarray.__delitem__(new_slice)",
+  "            if key.step is None or key.step > 0:\n                length = len(self)\n                start, stop, _ = key.indices(length)\n                self._bitarray.__delitem__(slice(length - stop, length - start, key.step))\n                return\n            new_slice = offset_slice_indices_lsb0(key, len(self))\n            self._bitarray.__delitem__(new_slice)", ['MIRROR'])
+V('MIRROR_getslice_hand_bounds', ['C12'], 'bitstore.py', "        s = offset_slice_indices_lsb0(slice(start, stop, None), len(self))\n        return BitStore(self._bitarray[s.start:s.stop])",
+  "        start, stop, _ = slice(start, stop, None).indices(len(self))\n        return BitStore(self._bitarray[len(self) - stop:len(self) - start])", ['MIRROR'])
+V('MIRROR_index_off_by_one', ['C12'], 'bitstore.py', "        return bool(self._bitarray.__getitem__(-index - 1))", "        return bool(self._bitarray.__getitem__(-index))", ['MIRROR'])
+S('MIRROR_rename_new_slice', ['C12'], 'bitstore.py', fn=rename_local('new_slice', 'mirrored_key'))
+S('MIRROR_getslice_whole_mirrored', ['C12'], 'bitstore.py', "        return BitStore(self._bitarray[s.start:s.stop])", "        return BitStore(self._bitarray[s])")
